@@ -4,7 +4,9 @@ use serde::{Deserialize, Serialize};
 use shred::{Fetch, FetchMut, ResourceId, World};
 
 pub const NT: usize = 8;
-pub const ND: usize = 4;
+/// dynamic-id indices per type; the general generators draw from the first `ND_CLASSIC` of them
+pub const ND: usize = 12;
+pub const ND_CLASSIC: usize = 4;
 
 /// the dynamic ids behind the small indices the generators use: index 0 is the id of the typed API;
 /// the others differ in their low and in their high halves, and two of them agree in the low 32 bits
@@ -40,6 +42,10 @@ impl Res {
     }
     pub fn from_index(i: usize) -> Res {
         Res::new(i / ND, i % ND)
+    }
+    /// i in 0..NT*ND_CLASSIC: the 32 resources with dynamic-id index < 4
+    pub fn classic(i: usize) -> Res {
+        Res::new(i / ND_CLASSIC, i % ND_CLASSIC)
     }
 }
 
